@@ -155,16 +155,29 @@ func (r *scriptReader) Read(p []byte) (int, error) {
 	return n, nil
 }
 
-// gatedReader stops before every Read until the scheduler releases it.
+// gatedReader stops before every Read until the scheduler releases it.  When
+// the case is over (abort closed) a creator that still reads gets an error, so
+// that no goroutine or temp file outlives its case.
 type gatedReader struct {
 	r       *scriptReader
 	arrive  chan struct{}
 	release chan struct{}
+	abort   chan struct{}
 }
 
+var errAbandoned = errors.New("case over: reader abandoned")
+
 func (g *gatedReader) Read(p []byte) (int, error) {
-	g.arrive <- struct{}{}
-	<-g.release
+	select {
+	case g.arrive <- struct{}{}:
+	case <-g.abort:
+		return 0, errAbandoned
+	}
+	select {
+	case <-g.release:
+	case <-g.abort:
+		return 0, errAbandoned
+	}
 	return g.r.Read(p)
 }
 
@@ -206,7 +219,22 @@ func shaHex(b []byte) string {
 	return hex.EncodeToString(h[:])
 }
 
+// abandon ends the gated creators that have not returned.
+func (c *ctx) abandon() {
+	for _, cr := range c.crs {
+		if cr.ret == "" || cr.ret == "hang" {
+			close(cr.g.abort)
+			select {
+			case <-cr.done:
+			case <-time.After(watchdog):
+			}
+		}
+	}
+	c.crs = nil
+}
+
 func (c *ctx) reset() {
+	c.abandon()
 	if c.fsDir != "" {
 		os.RemoveAll(c.fsDir)
 	}
@@ -263,6 +291,7 @@ func (c *ctx) reproduces(key string, ops []string) bool {
 	for _, l := range ops {
 		sub.runOp(l)
 	}
+	sub.abandon()
 	for _, f := range sub.rep.OracleFailures {
 		if f.Key == key {
 			return true
@@ -518,7 +547,7 @@ func (c *ctx) runOp(line string) string {
 			return "bad-op"
 		}
 		cr := &creator{script: script, done: make(chan string, 1),
-			g: &gatedReader{r: &scriptReader{s: script}, arrive: make(chan struct{}), release: make(chan struct{})}}
+			g: &gatedReader{r: &scriptReader{s: script}, arrive: make(chan struct{}), release: make(chan struct{}), abort: make(chan struct{})}}
 		c.crs = append(c.crs, cr)
 		st := c.fs
 		go func() { cr.done <- doCreate(st, cr.g) }()
@@ -1521,6 +1550,7 @@ func main() {
 		}
 		rep.Exhaustive = true
 	}
+	c.abandon()
 	if c.fsDir != "" {
 		os.RemoveAll(c.fsDir)
 	}
